@@ -16,6 +16,10 @@ type lockState struct {
 	writer  bool
 	readers int
 	owner   int
+	// waitingWriters: Lock calls that are blocked right now. As in sync.RWMutex a blocked writer
+	// excludes NEW readers (so a goroutine that takes RLock again while it already holds it
+	// deadlocks as soon as a writer queues between the two)
+	waitingWriters int
 }
 
 func (i *interpreter) lockOf(p value) *lockState {
